@@ -482,6 +482,29 @@ def t_cpp_parallel(facts, res, tier):
                     ok = True
         if not ok:
             res.fail(key, facts.where(fn), "%s: roll-over does not append a new chunk to all four tables together" % fname)
+        # a macro that is recorded in `defs` (so #ifdef sees it) is in the pattern tables too (so it is replaced): the insert and
+        # the three element pushes are statements of the function body itself, with no way out of the function between them
+        key = "T-CPP-PARALLEL:%s:unconditional" % fname
+        top = fn["body"].get("stmts") or []
+        def _top_index(pred):
+            for ti, st in enumerate(top):
+                e = st
+                while isinstance(e, dict) and e.get("k") in ("try", "paren"):
+                    e = e["e"]
+                if isinstance(e, dict) and pred(e):
+                    return ti
+            return None
+        i_ins = _top_index(lambda e: e.get("k") == "mcall" and e["method"] == "insert" and expr_text(e["recv"]) == "self.defs")
+        i_push = [_top_index(lambda e, t=t: e.get("k") == "mcall" and e["method"] == "push" and expr_text(e["recv"]) == "self.%s.last_mut().unwrap()" % t) for t in tables]
+        res.inst(key, True, {"defs_insert_statement": i_ins, "push_statements": i_push})
+        if i_ins is None or any(x is None for x in i_push):
+            res.fail(key, facts.where(fn), "%s: the insertion into `defs` or a push into a pattern table is not a statement of the function body itself (it is conditional): a macro can be known to #ifdef and never be replaced, or the reverse" % fname)
+        else:
+            last = max([i_ins] + i_push)
+            for st in top[:last]:
+                for x in walk(st):
+                    if x.get("k") == "return":
+                        res.fail(key, facts.where(fn, x), "%s can return before the macro is in all its tables: it is then known to #ifdef / #undef but its name is never replaced in the text (`#define EMPTY` followed by `EMPTY char i;`)" % fname)
         # defs (the BTreeMap used by get_macro/#ifdef) updated too
         key = "T-CPP-PARALLEL:%s:defs" % fname
         res.inst(key)
@@ -507,6 +530,37 @@ def t_cpp_parallel(facts, res, tier):
     res.inst(key, True, {"indices": sorted(idx)})
     if len(idx) != 1:
         res.fail(key, facts.where(fn), "undefine removes from the parallel tables with different chunk/index expressions: %s" % sorted(idx))
+    # where the (chunk, slot) pair comes from: counted by the search over the tables themselves (counters reset / stepped by one,
+    # or enumerate()/position() over the chunks and over one chunk), never computed from a position in the concatenation of the
+    # chunks - chunks are not all full once an entry has been removed
+    key = "T-CPP-PARALLEL:undefine:index-origin"
+    names = set()
+    for v in idx:
+        names |= {x for x in v if re.match(r"^\w+$", x)}
+    origins = []
+    for n in walk_inl(facts, fn):
+        tgt = None
+        rhs = None
+        if n.get("k") == "let" and n.get("init") is not None:
+            pn = [b for b in re.findall(r"\b\w+\b", pat_text(n["pat"])) if b in names]
+            if pn:
+                tgt, rhs = pn, n["init"]
+        elif n.get("k") == "assign" and expr_text(n["l"]) in names:
+            tgt, rhs = [expr_text(n["l"])], n["r"]
+        elif n.get("k") == "letcond":
+            pn = [b for b in re.findall(r"\b\w+\b", pat_text(n["pat"])) if b in names]
+            if pn:
+                tgt, rhs = pn, n["e"]
+        if tgt:
+            origins.append((tgt, rhs, n))
+    res.inst(key, True, {"indices": sorted(names), "definitions": [expr_text(r)[:50] for _, r, _ in origins]})
+    for tgt, rhs, n in origins:
+        rt = expr_text(rhs).replace(" ", "")
+        arith = [x for x in walk(rhs) if x.get("k") == "binary" and x["op"] in ("/", "%", "*", "-", ">>", "<<", "&")]
+        flat = [x for x in walk(rhs) if x.get("k") == "mcall" and x["method"] in ("flatten", "flat_map", "concat", "sum")]
+        plus = [x for x in walk(rhs) if x.get("k") == "binary" and x["op"] == "+" and not (expr_text(x["r"]).strip() == "1" or expr_text(x["l"]).strip() == "1")]
+        if arith or flat or plus:
+            res.fail(key, facts.where(fn, n), "undefine computes the index `%s` as `%s`: a position in the concatenation of the chunks is not (chunk, slot) once a chunk has lost an entry, so another macro's pattern is removed and the macro meant keeps being expanded" % ("/".join(tgt), rt[:60]))
     key = "T-CPP-PARALLEL:undefine:defs"
     res.inst(key)
     if "defs" not in removes:
